@@ -634,7 +634,7 @@ private:
 		}
 
 		bool sign = rhs < 0 ? true : false;
-		uint32_t v = sign ? -rhs : rhs; // project to positive side of the projective reals
+		uint64_t v = sign ? -uint64_t(rhs) : rhs; // project to positive side of the projective reals
 		int32_t raw = 0;          // we can use signed integer representation as we are taking care of the sign bit
 		if (v == sign_mask) { // +-maxpos, 0x8000'0000 is special in int32 arithmetic as it is its own negation
 			raw = 0x7FB00000;     // -2147483648  0x7FB0'0000; 
@@ -646,18 +646,19 @@ private:
 			raw = (v << 30);
 		}
 		else {
-			int8_t m = 31;
-			uint32_t fraction_bits = v;
-			while (!(fraction_bits & sign_mask)) {
+			constexpr uint64_t msb_mask = 0x8000'0000'0000'0000;
+			int8_t m = 63;
+			uint64_t fraction_bits = v;
+			while (!(fraction_bits & msb_mask)) {
 				--m;
 				fraction_bits <<= 1;
 			}
 			int8_t k = (m >> 2);
 			uint32_t exponent_bits = (m & 0x3) << (27 - k);
-			fraction_bits = (fraction_bits ^ sign_mask);
-			raw = (0x7FFFFFFF ^ (0x3FFFFFFF >> k)) | exponent_bits | (fraction_bits >> (k + 4));
+			fraction_bits = (fraction_bits ^ msb_mask);
+			raw = (0x7FFFFFFF ^ (0x3FFFFFFF >> k)) | exponent_bits | (fraction_bits >> (k + 36));
 
-			uint32_t fraction_bit_mask = 0x8 << k; //bitNPlusOne
+			uint64_t fraction_bit_mask = 0x8'0000'0000 << k; //bitNPlusOne
 			if (fraction_bit_mask & fraction_bits) {
 				if (((fraction_bit_mask - 1) & fraction_bits) | ((fraction_bit_mask << 1) & fraction_bits)) raw++;
 			}
